@@ -851,7 +851,7 @@ META = {
              'skipped inside the loop (=> independence of insertion order and invariance under duplicating all fragments, given the mask); mate arbitration '
              'equals "higher quality wins, tie with different bases -> N, lone quality-0 call kept" on all abstract call pairs. Does NOT decide per-read '
              'base extraction (pysam) or dove-tail window arithmetic.'),
-    'technique': 'static analysis: row-wise abstract evaluation of the numpy tie mask over an enumerated vote domain, dominator checks of the vote update, exception-containment CFG check, exhaustive abstract-case evaluation of the pure arbitration helper; row evaluation of the tie mask / majority step on every vote row in {0..3}^5',
+    'technique': 'static analysis: row-wise abstract evaluation of the numpy tie mask over an enumerated vote domain, dominator checks of the vote update, exception-containment CFG check, exhaustive abstract-case evaluation of the pure arbitration helper; row evaluation of the tie mask / majority step on every vote row in {0..3}^5; small-scope abstract execution of Molecule.get_consensus (numpy values) on model molecules of 1-4 fragments, two qualities, and molecules wider than any table size in the code, where the structural reading cannot follow',
     'design_ref': 'DESIGN.md section 5, C13',
 }
 
